@@ -13,16 +13,16 @@ import (
 
 // Effect is the per-opcode effect table handed to other engines (V8).
 type Effect struct {
-	Op       string
-	Fetch    []int          // slots fetched on the normal path, in order
-	Pushes   int            // pushes on the current memory on the normal path
-	ReadsTmp bool
+	Op        string
+	Fetch     []int // slots fetched on the normal path, in order
+	Pushes    int   // pushes on the current memory on the normal path
+	ReadsTmp  bool
 	WritesTmp bool
-	Method   string         // value operator method, if any
-	MethodOp int64          // opcode constant handed to the method (-1: none)
-	Control  string         // "", "jump", "cjump", "call", "ret", "ccont", "dcont", "rcont", "scont", "yield", "exit"
-	DstKinds map[int][]int64 // slot -> accepted destination kinds (MOV/INC), read off the clause
-	Unique   bool
+	Method    string          // value operator method, if any
+	MethodOp  int64           // opcode constant handed to the method (-1: none)
+	Control   string          // "", "jump", "cjump", "call", "ret", "ccont", "dcont", "rcont", "scont", "yield", "exit"
+	DstKinds  map[int][]int64 // slot -> accepted destination kinds (MOV/INC), read off the clause
+	Unique    bool
 }
 
 var (
@@ -159,7 +159,7 @@ var opFamily = map[string]struct {
 	"MOD": {"Mod", false, 2},
 	"AND": {"Logic", true, 2}, "OR": {"Logic", true, 2},
 	"LSH": {"Shift", true, 2}, "RSH": {"Shift", true, 2},
-	"LT":  {"Relational", true, 2}, "GT": {"Relational", true, 2}, "LE": {"Relational", true, 2}, "GE": {"Relational", true, 2},
+	"LT": {"Relational", true, 2}, "GT": {"Relational", true, 2}, "LE": {"Relational", true, 2}, "GE": {"Relational", true, 2},
 	"EQ": {"Eq", true, 2}, "NE": {"Eq", true, 2},
 	"NOT": {"Not", false, 1}, "FLIP": {"Flip", false, 1}, "LEN": {"Len", false, 1},
 	"IX1": {"Index", false, 2}, "IX2": {"Index", false, 3},
@@ -600,21 +600,33 @@ func (r *ruler) v7() {
 		}
 		top := len(condsWith(pa, "==(IP#")) == 1 && strings.HasSuffix(condsWith(pa, "==(IP#")[0], ":= true")
 		detach := len(events(pa, "call", "SetFrame")) == 1
+		// the other way of detaching: rebuilding the value around the copied frame.
+		// That is the same value only when node, parameter count and local count
+		// are handed to NewFunction in its parameter order (enc:E5 ties parameter
+		// i of NewFunction to the field of that position in ToFunction's result).
+		rebuilt := events(pa, "call", "value.NewFunction")
+		rebuiltOK := false
+		if len(rebuilt) == 1 && len(rebuilt[0].Args) == 4 {
+			a := rebuilt[0].Args
+			rebuiltOK = strings.HasPrefix(a[0], ".Node(ToFunction.0") && strings.HasPrefix(a[2], ".ParamCnt(ToFunction.0") && strings.HasPrefix(a[3], ".LocalCnt(ToFunction.0")
+		}
 		variant := "in a function"
 		if top {
 			variant = "at top level"
 		}
-		if detach {
+		if detach || rebuiltOK {
 			variant += ", returning a closure"
 		}
 		isFn := len(condsWith(pa, "ToFunction.1")) == 1 && strings.HasSuffix(condsWith(pa, "ToFunction.1")[0], ":= true")
-		if isFn && !detach {
+		if isFn && !detach && !rebuiltOK {
 			variant += ", returning a function without frame"
 		}
 		key := r.key("RET", "protocol "+variant)
 		val := "V0"
 		if detach {
 			val = events(pa, "call", "SetFrame")[0].Res
+		} else if rebuiltOK {
+			val = rebuilt[0].Res
 		}
 		ps := events(pa, "call", ".Push")
 		okPush := len(ps) == 1 && ps[0].Args[0] == "M" && ps[0].Args[1] == val
@@ -640,10 +652,14 @@ func (r *ruler) v7() {
 			}
 			cl := events(pa, "call", "slices.Clone")
 			sf := events(pa, "call", "SetFrame")
-			good := len(cl) == 1 && strings.HasPrefix(cl[0].Args[0], "deref(.Frame(ToFunction.0") && len(sf) == 1 && sf[0].Args[0] == "V0"
+			good := len(cl) == 1 && strings.HasPrefix(cl[0].Args[0], "deref(.Frame(ToFunction.0") && (len(sf) == 1 && sf[0].Args[0] == "V0" && len(rebuilt) == 0 || len(sf) == 0 && rebuiltOK)
 			if good {
 				// the frame installed must be the clone
-				if p, ok := sf[0].Vals[1].(*absint.Ptr); !ok || absint.Key(p.Cell.V) != cl[0].Res {
+				inst := rebuilt
+				if len(sf) == 1 {
+					inst = sf
+				}
+				if p, ok := inst[0].Vals[1].(*absint.Ptr); !ok || absint.Key(p.Cell.V) != cl[0].Res {
 					good = false
 				}
 				// and the copy must happen before the frame is popped
@@ -663,7 +679,7 @@ func (r *ruler) v7() {
 			if good {
 				r.s.OK("V13", k13, r.ppos(pa), "the captured frame of a returned function is copied (slices.Clone of its own frame) before the frame is popped")
 			} else {
-				r.s.Bad("V13", k13, r.ppos(pa), "a returned function value must get a private copy of the frame it captured (slices.Clone(*f.Frame) + SetFrame) before the frame is popped", pa.Describe()...)
+				r.s.Bad("V13", k13, r.ppos(pa), "a returned function value must get a private copy of the frame it captured (slices.Clone(*f.Frame), installed with SetFrame or by rebuilding the value with the same node, parameter count and local count) before the frame is popped, and be otherwise unchanged", pa.Describe()...)
 			}
 		}
 	}
